@@ -6,6 +6,10 @@ Streams
              injected defect (cycle, missing target, impossible self-inherit, diamond, inherit-only)
                impl ConfigManager.collapse_named_section  vs  Model_C43.collapse          (A)
                impl result vs Spec_C43 level order (in Coq) and a direct level-order reference (B)
+Keys are typed: w, x str; y bool; z list.  The value code 0 stands for the FALSY value of the key's type
+("" / False / []), codes 1..99 for truthy ones ("07" / True / ["07"]); ~30% of the settings are falsy, so
+"nearer falsy, farther truthy" definitions of one key are common.  Sections without a class are built at
+random as HardCodedConfigSection (typed python values) or ConfigSectionFromStringDict ("no"/"yes", "", "07").
 """
 
 import re
@@ -28,10 +32,11 @@ KEYS = "wxyz"
 
 # --------------------------------------------------------------------------- generator
 class Sec:
-    __slots__ = ("inh", "cls", "ionly", "kv")
+    __slots__ = ("inh", "cls", "ionly", "kv", "flavor")
 
     def __init__(self):
         self.inh, self.cls, self.ionly, self.kv = None, None, None, {}
+        self.flavor = "h"        # "h" HardCodedConfigSection, "s" ConfigSectionFromStringDict (driver only)
 
     def text(self, name):
         return "%s,%s,%s%s,%s" % (
@@ -51,9 +56,14 @@ def gen_env(rng, big=False):
     def newsec():
         s = Sec()
         for k in KEYS:
-            if rng.random() < 0.4:
-                val[0] += 1
-                s.kv[k] = val[0] % 100
+            if rng.random() < 0.45:
+                if rng.random() < 0.3:
+                    s.kv[k] = 0                      # the falsy value of the key's type
+                elif k == "y":
+                    s.kv[k] = 1                      # bool: True
+                else:
+                    val[0] = val[0] % 99 + 1         # 1..99
+                    s.kv[k] = val[0]
         return s
 
     where = {}
@@ -115,6 +125,10 @@ def gen_env(rng, big=False):
             s.inh = inh
         elif defect == "ionly":
             env[where[n][-1]][n].ionly = True
+    for src in env:
+        for sec in src.values():
+            if sec.cls is None and rng.random() < 0.4:
+                sec.flavor = "s"
     return env, defect
 
 
@@ -123,16 +137,29 @@ def case_text(env, query):
 
 
 # --------------------------------------------------------------------------- implementation driver
+def canon_value(k, v):
+    """rendered value -> two characters: "00" = the falsy value of the key's type, else the code"""
+    if k == "y":
+        return {False: "00", True: "01"}.get(v, "?b") if isinstance(v, bool) else "?b"
+    if k == "z":
+        if isinstance(v, (list, tuple)) and all(isinstance(i, str) and len(i) == 2 for i in v) and len(v) <= 1:
+            return v[0] if v else "00"
+        return "?l"
+    if isinstance(v, str) and len(v) in (0, 2):
+        return v or "00"
+    return "?s"
+
+
 class Impl:
     def __init__(self):
         from pkgcore.config import basics, central, errors
         from pkgcore.config.hint import configurable
 
-        @configurable(allow_unknowns=True, typename="c0")
+        @configurable(types={"y": "bool", "z": "list"}, allow_unknowns=True, typename="c0")
         def cls0(**kw):
             return kw
 
-        @configurable(allow_unknowns=True, typename="c1")
+        @configurable(types={"y": "bool", "z": "list"}, allow_unknowns=True, typename="c1")
         def cls1(**kw):
             return kw
 
@@ -145,6 +172,15 @@ class Impl:
             d = {}
             for n, s in src.items():
                 sd = {}
+                if s.flavor == "s" and s.cls is None:
+                    if s.inh is not None:
+                        sd["inherit"] = " ".join(s.inh)
+                    if s.ionly is not None:
+                        sd["inherit-only"] = "true" if s.ionly else "false"
+                    for k, v in s.kv.items():
+                        sd[k] = ({"y": "yes" if v else "no"}.get(k, "%02d" % v if v else ""))
+                    d[n] = self.basics.ConfigSectionFromStringDict(sd)
+                    continue
                 if s.inh is not None:
                     sd["inherit"] = list(s.inh)
                 if s.cls is not None:
@@ -152,7 +188,7 @@ class Impl:
                 if s.ionly is not None:
                     sd["inherit-only"] = s.ionly
                 for k, v in s.kv.items():
-                    sd[k] = "%02d" % v
+                    sd[k] = bool(v) if k == "y" else (["%02d" % v] if v else []) if k == "z" else ("%02d" % v if v else "")
                 d[n] = self.basics.HardCodedConfigSection(sd)
             srcs.append(d)
         return self.central.ConfigManager(srcs)
@@ -167,7 +203,7 @@ class Impl:
             c = mgr.collapse_named_section(name)
             cls = self.classes.index(c.type.callable) if c.type.callable in self.classes else 9
             extra = sorted(set(c.config) - set(KEYS))
-            return "c%d" % cls + "".join(str(c.config[k]) if k in c.config else "--" for k in KEYS) \
+            return "c%d" % cls + "".join(canon_value(k, c.config[k]) if k in c.config else "--" for k in KEYS) \
                    + ("+" + ",".join(extra) if extra else "")
         except self.errors.ConfigurationError as e:
             msgs = []
@@ -234,10 +270,14 @@ def reference(env, name):
     if cls is None:
         return "error"
     out = "c%d" % cls
+    shadow = False
     for k in KEYS:
-        v = next((s[0].kv[k] for _, s, _ in order if k in s[0].kv), None)
-        out += "--" if v is None else "%02d" % v
-    return "ok:" + out, len(order)
+        defs = [s[0].kv[k] for _, s, _ in order if k in s[0].kv]
+        # the NEAREST definition wins whatever its value (0 = the falsy value of the key's type)
+        out += "--" if not defs else "%02d" % defs[0]
+        if defs and defs[0] == 0 and any(defs[1:]):
+            shadow = True
+    return "ok:" + out, len(order), shadow
 
 
 def main(chk: Check):
@@ -245,8 +285,9 @@ def main(chk: Check):
              "sections of the same name in earlier sources are reached by self-inherit, inherit lists shuffled; "
              "~35% of the environments get one defect (back edge = cycle, missing target, self-inherit at the "
              "bottom of a stack, second parent = diamond, inherit-only top section); every name plus an absent "
-             "one is collapsed; non-trivial = a collapse whose level order has >= 3 sections, or a reported "
-             "cycle/missing target")
+             "one is collapsed; keys are typed (str, str, bool, list) and ~30% of the settings carry the falsy "
+             "value of their type; non-trivial = a collapse whose level order has >= 3 sections or in which a "
+             "falsy nearest definition shadows a truthy farther one, or a reported cycle/missing target")
     ok = chk.build(["C43/Prop_C43.vo"])
     if ok:
         chk.check_assumptions("C43/Prop_C43.v")
@@ -255,7 +296,7 @@ def main(chk: Check):
 
     impl = Impl()
     rng = chk.rng
-    cases, py_bad, diamonds = [], [], 0
+    cases, py_bad, diamonds, shadows = [], [], 0, 0
     kinds = {}
     from .common import VERIF
     import json
@@ -269,6 +310,7 @@ def main(chk: Check):
                 for n, f in src.items():
                     s = Sec()
                     s.inh, s.cls, s.ionly, s.kv = f["inh"], f["cls"], f["ionly"], dict(f["kv"])
+                    s.flavor = f.get("flavor", "h")
                     d[n] = s
                 env.append(d)
             defect = "corpus"
@@ -295,10 +337,12 @@ def main(chk: Check):
                     chk.nontrivial((txt, n))
             else:
                 good = r == ref[0][3:]
-                if good and ref[1] >= 3:
+                if good and (ref[1] >= 3 or ref[2]):
                     chk.nontrivial((txt, n))
+                if ref[2]:
+                    shadows += 1
             if not good:
-                py_bad.append({"env": [{n_: {"inh": s.inh, "cls": s.cls, "ionly": s.ionly, "kv": s.kv}
+                py_bad.append({"env": [{n_: {"inh": s.inh, "cls": s.cls, "ionly": s.ionly, "kv": s.kv, "flavor": s.flavor}
                                         for n_, s in src.items()} for src in env],
                                "collapse": n, "implementation": r,
                                "reference": ref if isinstance(ref, str) else ref[0], "case_text": txt})
@@ -306,6 +350,7 @@ def main(chk: Check):
     chk.note(f"{diamonds} collapses met a diamond (a name inherited twice without a cycle; reported as "
              "'recursive' by the code); outside the property's tree-shaped/cyclic quantifier, not compared with the reference")
     chk.cov["result_kinds"] = kinds
+    chk.cov["falsy_nearest_shadows_truthy_farther"] = shadows
     for c in cases[:: max(1, len(cases) // 3)][:3]:
         chk.sample({"case": c[2], "impl": c[1]})
 
@@ -320,7 +365,8 @@ def main(chk: Check):
 
     for b in py_bad[:3]:
         chk.violation("property", {"what": "collapsed section differs from the nearest definition in level order "
-                                           "(or a cycle / missing target was not reported)", "input": b})
+                                           "(value codes: 00 = the falsy value of the key's type: '' / False / []; "
+                                           "or a cycle / missing target was not reported)", "input": b})
     if b_bad and not py_bad:
         for c in b_bad[:3]:
             chk.violation("property", {"what": "Spec_C43 (level order, nearest definition) rejects the implementation's result",
